@@ -7,7 +7,7 @@ CONSTANTS
   Roa <- GenRoa
   AspaDefs <- NoAspa
   ParentOf <- GenChain
-  Ops = {"res", "roa", "roll", "suspend", "refresh"}
+  Ops = {"res", "roa", "roll", "suspend", "refresh", "map"}
   Depth = 30
   MaxApiStreak = 2
   MaxDestr = 1
